@@ -837,6 +837,7 @@ def run_reference(src, params_values, attr_values, main="main"):
     """Execute the numpy reading. Returns list of np arrays. Raises on undefined inputs."""
     g = ref_globals()
     refsem.STEPS[0] = 0
+    refsem.MAXMAG[0] = 0.0
     exec(strip_imports(src), g)  # noqa: S102
     args = [RT(v) for v in params_values]
     out = g[main](*args, **attr_values)
